@@ -9,8 +9,11 @@
                 a dataclass position is serialized by `<Alias>___mashumaro_to_dict__(value)`,
                 i.e. the STATIC call of the annotated class's packer on whatever arrives
                 (pack.py pack_dataclass, non-nailed branch).
-   Everything else (containers, Optional, union skeleton, field loop, alias keys) is shared
-   by both paths, as in /repo (same registries).  Self-contained: stdlib only. *)
+   Everything else (containers, Optional, union skeleton, field loop, alias keys, omit_none) is shared
+   by both paths, as in /repo (same registries).  Options (serialize_by_alias, omit_none) are resolved through two
+   dialect layers - the call-time dialect and the builder's default dialect - around the class Config
+   (get_dialect_or_config_option); the format entry points (C15Format.v) instantiate the layers with the format's
+   built-in dialect and Dialect.merge (kernel K2).  Self-contained: stdlib only. *)
 From Coq Require Import List String Ascii ZArith Bool Lia.
 Import ListNotations.
 Open Scope string_scope.
@@ -43,12 +46,13 @@ Record fdef := mkF { f_name: string; f_alias: option string; f_ty: ty }.
 (* c_fields: ALL dataclass fields (inherited ones first, as dataclasses.fields gives them);
    c_parent: the dataclass base (single inheritance) - only used for the MRO walk;
    c_by_alias: Config.serialize_by_alias (None = not set);
+   c_omit_none: Config.omit_none (None = not set);
    c_has_method: the class's own __dict__ holds __mashumaro_to_dict__ (mixin classes always;
    plain dataclasses once some nailed builder compiled them as a field type).  When calls carry
    `dialect=` the flag is also set for subclasses of such classes: the inherited dialect-aware
    method compiles/looks up the packer of self.__class__, i.e. of the runtime class. *)
 Record cdef := mkC { c_name: cname; c_parent: option cname; c_fields: list fdef;
-                     c_by_alias: option bool; c_has_method: bool }.
+                     c_by_alias: option bool; c_omit_none: option bool; c_has_method: bool }.
 Definition env := list cdef.
 
 Fixpoint find_cls (E: env) (c: cname) : option cdef :=
@@ -90,18 +94,24 @@ Definition union_err (m: mode) : err := match m with Mixin => XUnionI | Codec =>
 Definition norm_err (e: err) : err := match e with XUnionV => XUnionI | _ => e end.
 Definition norm {A} (r: res A) : res A := match r with Ok a => Ok a | Err e => Err (norm_err e) end.
 
-(* effective serialize_by_alias (builder.get_dialect_or_config_option):
-   call dialect > Config > default dialect > False.  [dl] is the dialect's option:
-   on the mixin path it arrives as the call-time `dialect=` (all classes enable
-   ADD_DIALECT_SUPPORT), on the codec path as `default_dialect=`. *)
+(* options of one dialect layer (None = the dialect does not set it / Sentinel.MISSING) *)
+Record opts := mkO { o_by_alias: option bool; o_omit_none: option bool }.
+Definition no_opts : opts := mkO None None.
+
+(* effective option (builder.get_dialect_or_config_option): call dialect > Config > default dialect > False.
+   [call] is what a call passes as `dialect=` (all classes enable ADD_DIALECT_SUPPORT), [dflt] is the
+   builder's default dialect: the `default_dialect=` of a codec, the built-in dialect of a format mixin, or
+   their Dialect.merge for a format codec. *)
 Definition opt_or (a: option bool) (k: bool) : bool := match a with Some b => b | None => k end.
-Definition eff_by_alias (m: mode) (dl: option bool) (d: cdef) : bool :=
-  match m with
-  | Mixin => opt_or dl (opt_or (c_by_alias d) false)
-  | Codec => opt_or (c_by_alias d) (opt_or dl false)
-  end.
-Definition key_of (m: mode) (dl: option bool) (d: cdef) (f: fdef) : string :=
-  if eff_by_alias m dl d then match f_alias f with Some a => a | None => f_name f end else f_name f.
+Definition eff_by_alias (call dflt: opts) (d: cdef) : bool :=
+  opt_or (o_by_alias call) (opt_or (c_by_alias d) (opt_or (o_by_alias dflt) false)).
+Definition eff_omit_none (call dflt: opts) (d: cdef) : bool :=
+  opt_or (o_omit_none call) (opt_or (c_omit_none d) (opt_or (o_omit_none dflt) false)).
+Definition key_of (call dflt: opts) (d: cdef) (f: fdef) : string :=
+  if eff_by_alias call dflt d then match f_alias f with Some a => a | None => f_name f end else f_name f.
+
+Definition is_none (v: val) : bool := match v with VNone => true | _ => false end.
+Definition is_opt (t: ty) : bool := match t with TOpt _ => true | _ => false end.
 
 Fixpoint assoc {A} (l: list (string * A)) (k: string) : option A :=
   match l with
@@ -180,7 +190,7 @@ Fixpoint chars (s: string) : list string :=
 Section Pack.
   Variable E: env.
   Variable m: mode.
-  Variable dl: option bool.
+  Variables call dflt: opts.
 
   (* a packer applied to a str value (reached only when a packer meets a value of another
      shape: look-alike classes).  Structural on the type: iterating/indexing a str gives strs. *)
@@ -222,14 +232,18 @@ Section Pack.
         end
     end.
 
-  (* body of the generated __mashumaro_to_dict__ of class [d] over attribute closures *)
-  Definition pack_fields_cl (d: cdef) (cl: list (string * (ty -> res val))) : res val :=
-    fmap VDict
+  (* body of the generated __mashumaro_to_dict__ of class [d] over attribute closures (is the attribute None?,
+     its packer).  A nullable (Optional) field whose value is None is skipped under omit_none, without
+     evaluating its packer. *)
+  Definition pack_fields_cl (d: cdef) (cl: list (string * (bool * (ty -> res val)))) : res val :=
+    fmap (fun l => VDict (List.concat l))
       (mapM (fun f => match assoc cl (f_name f) with
                       | None => Err XRaw                       (* AttributeError *)
-                      | Some g => match g (f_ty f) with
-                                  | Ok y => Ok (key_of m dl d f, y)
-                                  | Err e => Err e end
+                      | Some (isn, g) =>
+                          if eff_omit_none call dflt d && isn && is_opt (f_ty f) then Ok []
+                          else match g (f_ty f) with
+                               | Ok y => Ok [(key_of call dflt d f, y)]
+                               | Err e => Err e end
                       end) (c_fields d)).
 
   Definition target (ann rc: cname) : option cdef :=
@@ -285,7 +299,7 @@ Section Pack.
           match v with
           | VObj rc fs =>
               match target c rc with
-              | Some d => pack_fields_cl d (map (fun kv => match kv with (k, x) => (k, pack x) end) fs)
+              | Some d => pack_fields_cl d (map (fun kv => match kv with (k, x) => (k, (is_none x, pack x)) end) fs)
               | None => Err XRaw
               end
           | _ =>
@@ -298,8 +312,17 @@ Section Pack.
           end
       end.
 
-  Definition run_pack (t: ty) (v: val) : res val := pack v t.
 End Pack.
+
+(* one dialect [o]: on the mixin path it arrives with the call, on the codec path as default_dialect *)
+Definition run_pack_o (E: env) (m: mode) (o: opts) (t: ty) (v: val) : res val :=
+  match m with
+  | Mixin => pack E m o no_opts v t
+  | Codec => pack E m no_opts o v t
+  end.
+(* ... that sets serialize_by_alias only *)
+Definition run_pack (E: env) (m: mode) (dl: option bool) (t: ty) (v: val) : res val :=
+  run_pack_o E m (mkO dl None) t v.
 
 (* ------------------------------------------------------------------ *)
 (* conforming values with exact runtime classes                          *)
@@ -388,11 +411,11 @@ Definition no_lookalike_union (E: env) (t: ty) : bool := no_lookalike_ty E t && 
 
 (* a dialect option and a Config option never contradict each other (then the different
    priority of call dialect and default dialect is invisible) *)
-Definition dialect_compat (E: env) (dl: option bool) : bool :=
-  match dl with
-  | None => true
-  | Some b => forallb (fun d => match c_by_alias d with None => true | Some b' => Bool.eqb b b' end) E
-  end.
+Definition opt_compat (o c: option bool) : bool :=
+  match o, c with Some b, Some b' => Bool.eqb b b' | _, _ => true end.
+Definition dialect_compat_o (E: env) (o: opts) : bool :=
+  forallb (fun d => opt_compat (o_by_alias o) (c_by_alias d) && opt_compat (o_omit_none o) (c_omit_none d)) E.
+Definition dialect_compat (E: env) (dl: option bool) : bool := dialect_compat_o E (mkO dl None).
 
 (* no class declares two fields of the same name *)
 Fixpoint nodupb (l: list string) : bool :=
